@@ -174,8 +174,9 @@ def gen(rnd, sid, mode=None, features=None, tank_bias=False):
     if "controls" in f and rnd.random() < 0.6:
         plinks = [i + 1 for i, l in enumerate(links) if l["type"] == "pipe"]
         for _ in range(rnd.choice([1, 2, 3])):
+            # priorities below and above that of the simulator's own tank-limit rules (medium): their order in time must win
             s["ctl"].append({"kind": "sim", "thr": rnd.choice([0, H, H + 900, 2 * H, 3 * H, 3 * H + 1200]), "rep": 0,
-                             "link": rnd.choice(plinks), "val": rnd.choice([0, 0, 1]), "prio": 3})
+                             "link": rnd.choice(plinks), "val": rnd.choice([0, 0, 1]), "prio": rnd.choice([3, 3, 1, 5])})
     # conditional simple controls: hysteresis pairs on tank levels, junction pressure controls
     s["cctl"] = []
     if "level_controls" in f:
